@@ -8,8 +8,11 @@ from d42 import validate
 from d42.declaration.types import DictSchema
 
 MODULE = "D42.Props.C04"
-THEOREMS = []
-FILES = ["D42/Model/Data.lean", "D42/Model/Validate.lean", "D42/Model/Subst.lean", "D42/Props/C04.lean"]
+THEOREMS = ["subst_accepts", "subst_total", "subst_keeps_rest", "subst_given_required",
+            "subst_pins_scalar", "subst_pins_bool_int", "subst_pins_float_precision",
+            "subst_accepts_counterexample", "subst_accepts_contains_counterexample"]
+FILES = ["D42/Model/Data.lean", "D42/Model/Validate.lean", "D42/Model/Subst.lean", "D42/Props/C14.lean", "D42/Props/C12.lean",
+         "D42/Props/C05.lean", "D42/Props/C04.lean"]
 
 EVIDENCE = dict(
     level="proof",
@@ -95,7 +98,9 @@ def run(ctx):
     from d42 import schema
     corpus = [(schema.list([..., schema.dict({"a": schema.int, "b": schema.int}), ...]), [{"a": 1}, {"a": 1, "b": 2}]),
               (schema.list([..., schema.dict({"a": schema.int}), ...]), [{"a": 1}, {"a": 2}]),
-              (schema.any(schema.dict({"a": schema.int, "b": schema.int}), schema.dict({"a": schema.int})), {"a": 1})]
+              (schema.any(schema.dict({"a": schema.int, "b": schema.int}), schema.dict({"a": schema.int})), {"a": 1}),
+              (schema.any(schema.dict({"a": schema.int, ...: ...}), schema.dict({"a": schema.int, "b": schema.int, "c": schema.int})),
+               {"a": 1, "c": 2})]
     for s, v in corpus:
         cases.append(substcorr.SubCase(s, v, v, "corpus"))
     for c in cases:
